@@ -298,10 +298,17 @@ class WorkerPool:
             # we just wait a bit and try again.
             for worker_id in range(len(self._workers)):
                 try:
+                    # A routine exit (end of lifespan, poison pill) must not be mistaken for a death. We therefore look
+                    # at one specific worker instance: it must have been started and be gone according to the OS, and
+                    # only then do we read the alive status and verify that the slot still holds that same instance.
+                    # The status then belongs to that instance: a successor can only report itself alive after it has
+                    # been put in the slot
+                    worker = self._workers[worker_id]
                     worker_died = (
-                        self._worker_comms.is_worker_alive(worker_id) and not self._workers[worker_id].is_alive()
+                        worker is not None and worker.ident is not None and not worker.is_alive() and
+                        self._worker_comms.is_worker_alive(worker_id) and self._workers[worker_id] is worker
                     )
-                except ValueError:
+                except (ValueError, IndexError):
                     worker_died = False
 
                 if worker_died:
